@@ -32,7 +32,7 @@ def ancestors(program: dict, sid: str) -> set[str]:
 
 def symptom_of(d: dict) -> str:
     k = d["kind"]
-    if k in ("sqlite_only_error", "polars_only_error", "internal_error"):
+    if k in ("sqlite_only_error", "polars_only_error", "internal_error", "target_error"):
         return f"{k}:{d.get('exc')}"
     return k
 
